@@ -58,7 +58,10 @@ TOpenEndC ==
     /\ Is("OpenEnd") /\ ClientMode /\ Ev.h \in DOMAIN hmap
     /\ RunReg(loopOf[hmap[Ev.h]], hmap[Ev.h], Ev.action)
     /\ KeepT /\ Adv
-SRegEnqueue == ClientMode /\ (\E r \in Regs : RegEnqueue(r)) /\ Stay /\ KeepT
+\* (the registration is put into the queue when the log next shows it running: with a dozen concurrent dials every
+\* earlier moment only multiplies the orders in which the search has to try them)
+SRegEnqueue == /\ ClientMode /\ Is("Registered") /\ Ev.k \in DOMAIN hidx
+               /\ RegEnqueue(hidx[Ev.k]) /\ Stay /\ KeepT
 \* Client.Stop: shutdown(nil), OnShutdown, the exit signals, Wait, closeEventLoops, the flag -- only OnShutdown is logged
 SStopSteps == ClientMode /\ (S1 \/ S4 \/ S5 \/ S6) /\ Stay /\ KeepT
 
